@@ -94,7 +94,8 @@ Inductive bq := BE (isteps : list rstep) | BN (isteps : list rstep) | BC (isteps
               | BL (isteps : list rstep) (ne : bool) (l : litv)
               | BRE (j : list rstep) | BRN (j : list rstep)            (* existence of a `$`-rooted path, and its negation *)
               | BCR (isteps : list rstep) (o : cmpop) (j : list rstep)   (* @steps OP $steps, OP an ordering operator *)
-              | BPQ (isteps : list rstep) (ne : bool) (j : list rstep).  (* @steps == $steps, @steps != $steps *)
+              | BPQ (isteps : list rstep) (ne : bool) (j : list rstep)   (* @steps == $steps, @steps != $steps *)
+              | BX (isteps : list rstep) (body : list N).              (* @steps =~ /body/ *)
 Definition bq_text (b : bq) : list N :=
   match b with
   | BE i => 64 :: render_steps i
@@ -105,6 +106,7 @@ Definition bq_text (b : bq) : list N :=
   | BRN j => 33 :: 36 :: render_steps j
   | BCR i o j => 64 :: render_steps i ++ op_text o ++ 36 :: render_steps j
   | BPQ i ne j => 64 :: render_steps i ++ (if ne then [33; 61] else [61; 61]) ++ 36 :: render_steps j
+  | BX i body => 64 :: render_steps i ++ [61; 126; 47] ++ body ++ [47]
   end.
 Definition and_text (c : list bq) : list N :=
   match c with [] => [] | b :: bs => bq_text b ++ flat_map (fun x => [38; 38] ++ bq_text x) bs end.
